@@ -65,6 +65,14 @@ type NPPort struct {
 	Name  string
 }
 
+// EffNS: the namespace the policy belongs to (`default` when it is written without one)
+func (n *NetPol) EffNS() string {
+	if n.NS == "" {
+		return "default"
+	}
+	return n.NS
+}
+
 type NPRule struct {
 	Peers []NPPeer
 	Ports []NPPort
@@ -331,7 +339,7 @@ func (o Obj) Sx() *Sx {
 		for _, r := range n.Egress {
 			eg.Add(sxNPRule(r))
 		}
-		r := Ls(At("np"), At(n.NS), At(n.Name), sxSel(&n.PodSel), types, in, eg)
+		r := Ls(At("np"), At(dash(n.NS)), At(n.Name), sxSel(&n.PodSel), types, in, eg)
 		if n.UID != "" {
 			r.Add(Ls(At("uid"), At(n.UID)))
 		}
@@ -540,7 +548,7 @@ func ParseWorld(s *Sx) (w *World, err error) {
 			}
 			w.Objs = append(w.Objs, Obj{Kind: "pod", Pod: p})
 		case "np":
-			n := &NetPol{NS: o.L[1].A, Name: o.L[2].A, PodSel: pSelNN(o.L[3])}
+			n := &NetPol{NS: undash(o.L[1].A), Name: o.L[2].A, PodSel: pSelNN(o.L[3])}
 			for _, t := range o.L[4].Args() {
 				n.Types = append(n.Types, t.A)
 			}
@@ -854,7 +862,10 @@ func (o Obj) Doc() M {
 		} else if h%2 == 0 {
 			spec["egress"] = []M{}
 		}
-		md := M{"name": n.Name, "namespace": n.NS}
+		md := M{"name": n.Name}
+		if n.NS != "" { // no metadata.namespace: the policy belongs to the namespace `default`
+			md["namespace"] = n.NS
+		}
 		if n.UID != "" {
 			md["uid"] = n.UID
 		}
